@@ -269,6 +269,18 @@ unsafe impl Sync for Shared {}
 
 impl Drop for Shared {
     fn drop(&mut self) {
+        // Submit any submissions queued after the `Ring` was dropped, such as
+        // the closing of fds, nobody else is going to do it.
+        if self.unsubmitted_submissions() != 0 {
+            let mut flags = 0; // Only submit.
+            if self.kernel_thread {
+                flags |= libc::IORING_ENTER_SQ_WAIT;
+            }
+            if let Err(err) = self.enter(0, flags, None) {
+                log::warn!("error flushing submissions: {err}");
+            }
+        }
+
         let ptr = self.submissions.cast();
         let len = (self.submissions_len as usize) * size_of::<sq::Submission>();
         // NOTE: posioned in Shared::new.
